@@ -226,6 +226,7 @@ func step(cfg Config, n *node, ev string, rep *core.Report) (nn *node, key strin
 	}()
 	inst := cfg.New()
 	defer inst.Close()
+	setHorizon(inst, len(hist))
 	for i, e := range n.hist {
 		o := inst.Apply(e)
 		if o != n.obs[i] {
@@ -244,6 +245,16 @@ func step(cfg Config, n *node, ev string, rep *core.Report) (nn *node, key strin
 	return nn, inst.Key(), ev + "=>" + o
 }
 
+// setHorizon tells an instance how many events this execution will apply. An
+// oracle that judges single transitions (the crash images of one event) may
+// then skip the replayed prefix: every prefix was judged when it was the end of
+// its own history (step checks every successor it builds, before de-duplication).
+func setHorizon(inst Instance, n int) {
+	if h, ok := inst.(interface{ SetHorizon(int) }); ok {
+		h.SetHorizon(n)
+	}
+}
+
 func firstLine(s string) string {
 	if i := strings.IndexByte(s, '\n'); i >= 0 {
 		s = s[:i]
@@ -259,6 +270,7 @@ func firstLine(s string) string {
 func Replay(newInst func() Instance, hist []string) (obs []string, viol []core.Violation) {
 	inst := newInst()
 	defer inst.Close()
+	setHorizon(inst, len(hist))
 	for _, e := range hist {
 		obs = append(obs, inst.Apply(e))
 	}
